@@ -139,7 +139,7 @@ class Grammar:
         for kind, key, toks in L.read_dump(job["dump"]):
             self.table[(kind, key)] = toks
         self.fail = []
-        self.n = {"cases": 0, "builds": 0, "parses": 0, "edits": 0, "ids": 0}
+        self.n = {"cases": 0, "builds": 0, "parses": 0, "edits": 0, "ids": 0, "rewrites": 0}
         self.samples = []
         self.psize = {k: [len(self.pools[k][f]) for f in self.pools[k + "Fields"]] for k in ("commit", "tag")}
         self._bytes = {}
@@ -252,6 +252,83 @@ class Grammar:
                     if not impl_exc(e):
                         raise
                     self.failure(ser_site, f"edit-exception:{clause}:{type(e).__name__}", kind, key, algo, note=str(e)[:200])
+        # 4. the same edits through a rewriter (object names in a MemoryObjectStore are SHA-1)
+        if kind == "commit" and algo == "sha1" and F["blank"]:
+            self.run_rewrites(key, algo, want, F)
+
+    # ---- rewriters: a new commit built from an old one, identity except one field (ObjGrammar!Rewrite)
+    RW_ATTR = {"message": "message", "author": "author", "committer": "committer", "atime": "author_time",
+               "ctime": "commit_time", "atz": "author_timezone", "ctz": "commit_timezone", "encoding": "encoding"}
+
+    def rewrite_store(self, algo):
+        from dulwich.object_store import MemoryObjectStore
+        from dulwich.objects import ShaFile
+        st = getattr(self, "_rw_store", None)
+        if st is None:
+            st = self._rw_store = MemoryObjectStore()
+            for i in (3, 4, 5):                                   # the parents the pool refers to
+                k, b = self.L.FIXED[algo][i]
+                st.add_object(ShaFile.from_raw_string(self.L.TYPE_NUM[k], b))
+        return st
+
+    def run_rewrites(self, key, algo, want, F):
+        """filter_branch.CommitFilter.process_commit with a filter that changes exactly one field of
+        exactly this commit: the new commit must be the specification's edit of that field."""
+        L = self.L
+        from dulwich.filter_branch import CommitFilter
+        from dulwich.objects import Commit
+        site = "dulwich/filter_branch.py:CommitFilter.process_commit"
+        fields = self.pools["commitFields"]
+        ix = key.split(",")
+        case = L.case_of(self.pools, "commit", key)
+        st = self.rewrite_store(algo)
+        for f in self.pools["rewriterFields"]:
+            p = fields.index(f)
+            for j in range(1, self.psize["commit"][p] + 1):
+                if str(j) == ix[p]:
+                    continue
+                key2 = ",".join(ix[:p] + [str(j)] + ix[p + 1:])
+                if ("commit", key2) not in self.table:
+                    continue
+                case2 = L.case_of(self.pools, "commit", key2)
+                if f in ("atz", "ctz") and (case[f]["negutc"] or case2[f]["negutc"]):
+                    continue                                       # ObjGrammar!Rewritable: the filter passes an offset only
+                want2 = self.expected("commit", key2, algo)
+                F2 = L.commit_fields(case2, algo)
+                clause = f"{f}={j}"
+                try:
+                    old = Commit.from_string(want)
+                    st.add_object(old)
+                    oid = old.id
+                    kw = {}
+                    if f == "parents":
+                        src = list(F["parents"])
+                        kw["parent_filter"] = lambda ps, src=src, new=list(F2["parents"]): new if ps == src else ps
+                        if src == []:
+                            # parent_filter also sees the (parentless) parents of other commits; here the
+                            # commit itself has none, so it is the only one processed
+                            pass
+                    elif f in ("message", "author", "committer") and (j + p) % 2:
+                        a = self.RW_ATTR[f]
+                        kw["filter_" + f] = lambda v, old_v=F[a], new=F2[a]: new if v == old_v else None
+                    else:
+                        a = self.RW_ATTR[f]
+                        kw["filter_fn"] = lambda c, oid=oid, a=a, new=F2[a]: {a: new} if c.id == oid else None
+                    cf = CommitFilter(st, **kw)
+                    nid = cf.process_commit(oid)
+                    self.n["rewrites"] = self.n.get("rewrites", 0) + 1
+                    if nid is None or nid == oid:
+                        self.failure(site, "rewrite-not-made:" + clause, "commit", key, algo, note=repr(nid))
+                        continue
+                    got = st[nid].as_raw_string()
+                    if got != want2:
+                        self.failure(site, "rewrite-bytes:" + clause, "commit", key, algo, want2, got)
+                    if nid != L.H(algo, "commit", got) or cf.get_mapping().get(oid) != nid:
+                        self.failure(site, "rewrite-id:" + clause, "commit", key, algo, L.H(algo, "commit", got), nid)
+                except Exception as e:  # noqa: BLE001
+                    if not impl_exc(e):
+                        raise
+                    self.failure(site, f"rewrite-exception:{clause}:{type(e).__name__}", "commit", key, algo, note=str(e)[:200])
 
     # ---- tree
     def run_tree(self, key, algo, rng):
